@@ -248,9 +248,18 @@ impl<'a, 'bases, R: Reader> EhHdrTableIter<'a, 'bases, R> {
         };
 
         self.remain -= 1;
-        let from = parse_encoded_pointer(self.hdr.table_enc, &parameters, &mut self.table)?;
-        let to = parse_encoded_pointer(self.hdr.table_enc, &parameters, &mut self.table)?;
-        Ok(Some((from, to)))
+        let mut parse_row = || {
+            let from = parse_encoded_pointer(self.hdr.table_enc, &parameters, &mut self.table)?;
+            let to = parse_encoded_pointer(self.hdr.table_enc, &parameters, &mut self.table)?;
+            Ok(Some((from, to)))
+        };
+        let row = parse_row();
+        if row.is_err() {
+            // The count comes from the header and may exceed the table:
+            // do not keep failing once per claimed row.
+            self.remain = 0;
+        }
+        row
     }
     /// Yield the nth entry in the `EhHdrTableIter`
     pub fn nth(&mut self, n: usize) -> Result<Option<(Pointer, Pointer)>> {
